@@ -130,7 +130,7 @@ theorem starEval_sound {a : E} {p : Bytes → Option Outcome}
     (and by `peg_deterministic` the only one). -/
 theorem pegEval_sound {e : E} : ∀ {x : Bytes} {r : Outcome}, pegEval e x = some r → Peg e x r := by
   induction e with
-  | chr g =>
+  | chr g w =>
     intro x r h
     cases x with
     | nil => simp only [pegEval, Option.some.injEq] at h; subst h; exact .chr_eof
@@ -248,16 +248,43 @@ theorem asciiChar_cons {g : Guard} {s : Bytes} {i : Nat} {c : UInt8} {x : Bytes}
     · have hg' : g.holds c = false := by simpa using hg
       simp [asciiChar, parsePrim, h1, hd, asciiPrim, hc, Guard.accepts, hc', hg']
 
+/-- the raw operand at the end of the buffer -/
+theorem rawChar_nil {g : Guard} {s : Bytes} {i : Nat} (hi : i ≤ s.length) (hd : s.drop i = []) :
+    rawChar g s i = (.err .eob, i) := by
+  have : ¬ i > s.length := by omega
+  simp [rawChar, parsePrim, this, hd, asciiPrim]
+
+/-- the raw operand on a byte: same acceptance as `AsciiChar`, but a guard rejection leaves the
+    cursor *after* the byte -/
+theorem rawChar_cons {g : Guard} {s : Bytes} {i : Nat} {c : UInt8} {x : Bytes}
+    (hd : s.drop i = c :: x) :
+    rawChar g s i =
+      if g.accepts c = true then (.ok (.ch c i (i + 1)), i + 1)
+      else if c.toNat ≥ 128 then (.err .prim, i) else (.err .guard, i + 1) := by
+  have hany : Guard.holds .any c = true := rfl
+  have hlt := lt_of_drop_cons hd
+  have h1 : ¬ i > s.length := by omega
+  have h2 : i + 1 ≤ s.length := by omega
+  by_cases hc : c.toNat ≥ 128
+  · have : ¬ c.toNat < 128 := by omega
+    simp [rawChar, parsePrim, h1, hd, asciiPrim, hc, Guard.accepts, this]
+  · have hc' : c.toNat < 128 := by omega
+    by_cases hg : g.holds c = true
+    · simp [rawChar, parsePrim, h1, hd, asciiPrim, hc, Guard.accepts, hc', hg, setCursor, h2, hany]
+    · have hg' : g.holds c = false := by simpa using hg
+      simp [rawChar, parsePrim, h1, hd, asciiPrim, hc, Guard.accepts, hc', hg', setCursor, h2, hany]
+
 /-! ## The invariant every `parse` call of the model satisfies -/
 
 /-- What a call of the parser for `e` at cursor `i` returns: on success a value whose span is
     `[i, j)`, whose spans nest, whose structure and consumed length are the textbook outcome, and
     the cursor is at the end of the span; on failure the cursor is back at `i` and the textbook
-    outcome is failure; never a panic, never a hang. -/
+    outcome is failure (a bare raw operand may leave the cursor elsewhere – every combinator puts
+    it back); never a panic, never a hang. -/
 def Good (e : E) (s : Bytes) (i : Nat) : Out × Nat → Prop
   | (.ok t, j) => ∃ n, j = i + n ∧ j ≤ s.length ∧ t.start = i ∧ t.stop = j ∧ t.nest = true ∧
       Peg e (s.drop i) (some (t.shape, n)) ∧ (consumes e = true → 0 < n)
-  | (.err _, j) => j = i ∧ Peg e (s.drop i) none
+  | (.err _, j) => (e.isRaw = false → j = i) ∧ Peg e (s.drop i) none
   | (.panic _, _) => False
   | (.hang, _) => False
 
@@ -324,23 +351,44 @@ theorem run_good {e : E} {s : Bytes} {fuel : Nat} :
     ∀ {i : Nat}, StarBodiesConsume e = true → i ≤ s.length → s.length - i < fuel →
       Good e s i (run e fuel s i) := by
   induction e with
-  | chr g =>
+  | chr g w =>
     intro i _ hi _
-    simp only [run]
-    cases hd : s.drop i with
-    | nil =>
-      rw [asciiChar_nil hi hd]
-      exact ⟨rfl, by rw [hd]; exact .chr_eof⟩
-    | cons c x =>
-      rw [asciiChar_cons hd]
-      have hlt := lt_of_drop_cons hd
-      by_cases hc : g.accepts c = true
-      · simp only [hc, if_true]
-        refine ⟨1, rfl, by omega, rfl, rfl, by simp [T.nest], ?_, fun _ => Nat.one_pos⟩
-        rw [hd]; simp only [T.shape]; exact .chr_ok hc
-      · simp only [hc]
-        refine ⟨rfl, ?_⟩
-        rw [hd]; exact .chr_rej (by simpa using hc)
+    cases w with
+    | false =>
+      simp only [run]
+      cases hd : s.drop i with
+      | nil =>
+        rw [asciiChar_nil hi hd]
+        exact ⟨fun _ => rfl, by rw [hd]; exact .chr_eof⟩
+      | cons c x =>
+        rw [asciiChar_cons hd]
+        have hlt := lt_of_drop_cons hd
+        by_cases hc : g.accepts c = true
+        · simp only [hc, if_true]
+          refine ⟨1, rfl, by omega, rfl, rfl, by simp [T.nest], ?_, fun _ => Nat.one_pos⟩
+          rw [hd]; simp only [T.shape]; exact .chr_ok hc
+        · simp only [hc]
+          refine ⟨fun _ => rfl, ?_⟩
+          rw [hd]; exact .chr_rej (by simpa using hc)
+    | true =>
+      simp only [run]
+      cases hd : s.drop i with
+      | nil =>
+        rw [rawChar_nil hi hd]
+        exact ⟨fun _ => rfl, by rw [hd]; exact .chr_eof⟩
+      | cons c x =>
+        rw [rawChar_cons hd]
+        have hlt := lt_of_drop_cons hd
+        by_cases hc : g.accepts c = true
+        · simp only [hc, if_true]
+          refine ⟨1, rfl, by omega, rfl, rfl, by simp [T.nest], ?_, fun _ => Nat.one_pos⟩
+          rw [hd]; simp only [T.shape]; exact .chr_ok hc
+        · have hrej : Peg (.chr g true) (s.drop i) none := by
+            rw [hd]; exact .chr_rej (by simpa using hc)
+          simp only [hc]
+          by_cases h128 : c.toNat ≥ 128
+          · simp only [h128, if_true]; exact ⟨fun _ => rfl, hrej⟩
+          · simp only [h128]; exact ⟨fun h => by simp [E.isRaw] at h, hrej⟩
   | seq a b iha ihb =>
     intro i hwf hi hf
     simp only [StarBodiesConsume, Bool.and_eq_true] at hwf
@@ -378,14 +426,14 @@ theorem run_good {e : E} {s : Bytes} {fuel : Nat} :
             rw [restore_ok _ _ hi]
             have hd : s.drop j = (s.drop i).drop n := by rw [drop_add, hj]
             rw [hd] at hpeg2
-            exact ⟨rfl, .seq_fail2 hpeg hpeg2⟩
+            exact ⟨fun _ => rfl, .seq_fail2 hpeg hpeg2⟩
           | panic st => exact hb.elim
           | hang => exact hb.elim
       | err k =>
         obtain ⟨_, hpeg⟩ := ha
         simp only []
         rw [restore_ok _ _ hi]
-        exact ⟨rfl, .seq_fail1 hpeg⟩
+        exact ⟨fun _ => rfl, .seq_fail1 hpeg⟩
       | panic st => exact ha.elim
       | hang => exact ha.elim
   | alt a b iha ihb =>
@@ -427,7 +475,7 @@ theorem run_good {e : E} {s : Bytes} {fuel : Nat} :
             obtain ⟨_, hpeg2⟩ := hb
             simp only []
             rw [restore_ok _ _ hi]
-            exact ⟨rfl, .alt_fail hpeg hpeg2⟩
+            exact ⟨fun _ => rfl, .alt_fail hpeg hpeg2⟩
           | panic st => exact hb.elim
           | hang => exact hb.elim
       | panic st => exact ha.elim
@@ -459,7 +507,7 @@ theorem run_good {e : E} {s : Bytes} {fuel : Nat} :
       | ok o1 =>
         obtain ⟨n, hj, hjl, hst, hsp, hnest, hpeg, hpos⟩ := ha
         simp only [setCursor_ok hi]
-        exact ⟨rfl, .not_fail hpeg⟩
+        exact ⟨fun _ => rfl, .not_fail hpeg⟩
       | err k =>
         obtain ⟨_, hpeg⟩ := ha
         simp only [setCursor_ok hi]
@@ -531,14 +579,14 @@ example : run (.seq (.chr (.eq 97)) (.chr (.eq 98))) 3 [99, 97, 98] 1
 /-- The composed parser never reaches an `assert!`/slice panic and its loops terminate. -/
 theorem run_never_panics_or_hangs {e : E} {s : Bytes} {i fuel : Nat}
     (hwf : StarBodiesConsume e = true) (hi : i ≤ s.length) (hf : s.length - i < fuel) :
-    (∃ t j, run e fuel s i = (.ok t, j)) ∨ (∃ k, run e fuel s i = (.err k, i)) := by
+    (∃ t j, run e fuel s i = (.ok t, j)) ∨ (∃ k j, run e fuel s i = (.err k, j)) := by
   have hg := run_good hwf hi hf
   cases hr : run e fuel s i with
   | mk o j =>
     rw [hr] at hg
     cases o with
     | ok t => exact .inl ⟨t, j, rfl⟩
-    | err k => obtain ⟨hj, _⟩ := hg; subst hj; exact .inr ⟨k, rfl⟩
+    | err k => exact .inr ⟨k, j, rfl⟩
     | panic st => exact hg.elim
     | hang => exact hg.elim
 
@@ -661,11 +709,14 @@ theorem starLoop_never_err {p : Nat → Out × Nat} {s : Bytes} {start : Nat} :
 
 /-- **Failure leaves the cursor where it was** — for *every* expression (no hypothesis on star
     bodies) and any fuel: each combinator restores the cursor itself before returning `Err`,
-    whatever its operands did with it. -/
+    whatever its operands did with it (operands may be *raw*, i.e. leave the cursor moved when
+    they fail; only a bare raw operand, which is not a combinator, is excluded). -/
 theorem failure_restores_cursor {e : E} {s : Bytes} {i fuel : Nat} {k : ErrK} {j : Nat}
-    (hi : i ≤ s.length) (h : run e fuel s i = (.err k, j)) : j = i := by
+    (hraw : e.isRaw = false) (hi : i ≤ s.length) (h : run e fuel s i = (.err k, j)) : j = i := by
   cases e with
-  | chr g =>
+  | chr g w =>
+    simp only [E.isRaw] at hraw
+    subst hraw
     simp only [run] at h
     cases hd : s.drop i with
     | nil => rw [asciiChar_nil hi hd] at h; cases h; rfl
@@ -728,6 +779,13 @@ theorem failure_restores_cursor {e : E} {s : Bytes} {i fuel : Nat} {k : ErrK} {j
 
 -- non-vacuity: `ab` on "ac" fails after the first part has consumed a byte; cursor back at 0
 example : run (.seq (.chr (.eq 97)) (.chr (.eq 98))) 3 [97, 99] 0 = (.err .guard, 0) := by rfl
+-- with raw operands the second part fails with the cursor at 2; the sequence still restores 0 …
+example : run (.chr (.eq 98) true) 3 [97, 99] 1 = (.err .guard, 2) := by rfl
+example : run (.seq (.chr (.eq 97) true) (.chr (.eq 98) true)) 3 [97, 99] 0 = (.err .guard, 0) := by rfl
+-- … the alternation restarts its right operand at 0, and the repetition goes back to the last success
+example : run (.alt (.chr (.eq 97) true) (.chr (.eq 98) true)) 3 [98] 0
+    = (.ok (.right (.ch 98 0 1) 0 1), 1) := by rfl
+example : run (.star (.chr (.eq 97) true)) 3 [97, 98] 0 = (.ok (.list [.ch 97 0 1] 0 1), 1) := by rfl
 
 /-! ### Negation -/
 
@@ -787,7 +845,7 @@ theorem star_always_succeeds_longest {a : E} {s : Bytes} {i fuel : Nat}
     ∃ ts n, run (.star a) fuel s i = (.ok (.list ts i (i + n)), i + n) ∧ i + n ≤ s.length ∧
       tiles ts i (i + n) = true ∧
       Chain a (s.drop i) (shapes ts) n ∧ Peg a (s.drop (i + n)) none ∧
-      ∃ k, run a fuel s (i + n) = (.err k, i + n) := by
+      ∃ k j, run a fuel s (i + n) = (.err k, j) := by
   have hwf' := hwf
   simp only [StarBodiesConsume, Bool.and_eq_true] at hwf'
   have hp : ∀ c, i ≤ c → c ≤ s.length → Good a s c ((fun j => run a fuel s j) c) := by
@@ -807,7 +865,7 @@ theorem star_always_succeeds_longest {a : E} {s : Bytes} {i fuel : Nat}
     | ok t =>
       obtain ⟨_, _, _, _, _, _, hpeg, _⟩ := hg
       cases peg_deterministic hpeg hfail
-    | err k => obtain ⟨hj, _⟩ := hg; subst hj; exact ⟨k, rfl⟩
+    | err k => exact ⟨k, j, rfl⟩
     | panic st => exact hg.elim
     | hang => exact hg.elim
 
@@ -862,7 +920,7 @@ theorem run_fuel_sufficient {e : E} {s : Bytes} :
   have key : ∀ {i f₁ f₂ : Nat}, StarBodiesConsume e = true → i ≤ s.length →
       s.length - i < f₁ → s.length - i < f₂ → run e f₁ s i = run e f₂ s i := by
     induction e with
-    | chr g => intros; simp only [run]
+    | chr g w => intros; cases w <;> simp only [run]
     | seq a b iha ihb =>
       intro i f₁ f₂ hwf hi h1 h2
       have hwf' := hwf
@@ -963,5 +1021,421 @@ theorem peg_star_nonconsuming_diverges {a : E} {x : Bytes} {v : Shape}
 example : ¬ Peg (.star (.not (.chr (.eq 97)))) [] (some (.list [], 0)) :=
   peg_star_nonconsuming_diverges (.not_ok .chr_eof) _
 example : StarBodiesConsume (.star (.not (.chr (.eq 97)))) = false := by rfl
+
+/-! ### The oracle is total on the property's domain -/
+
+/-- a success never consumes more than there is -/
+theorem peg_consumed_le {e : E} {x : Bytes} {r : Outcome} (h : Peg e x r) :
+    ∀ v n, r = some (v, n) → n ≤ x.length := by
+  induction h with
+  | chr_ok _ => intro v n h; cases h; simp
+  | chr_rej _ => intro v n h; cases h
+  | chr_eof => intro v n h; cases h
+  | seq_ok _ _ iha ihb =>
+    intro v n h; cases h
+    have h1 := iha _ _ rfl
+    have h2 := ihb _ _ rfl
+    simp only [List.length_drop] at h2
+    omega
+  | seq_fail1 _ _ => intro v n h; cases h
+  | seq_fail2 _ _ _ _ => intro v n h; cases h
+  | alt_left _ iha => intro v n h; cases h; exact iha _ _ rfl
+  | alt_right _ _ _ ihb => intro v n h; cases h; exact ihb _ _ rfl
+  | alt_fail _ _ _ _ => intro v n h; cases h
+  | star_stop _ _ => intro v n h; cases h; omega
+  | star_step _ _ iha ihs =>
+    intro v n h; cases h
+    have h1 := iha _ _ rfl
+    have h2 := ihs _ _ rfl
+    simp only [List.length_drop] at h2
+    omega
+  | not_ok _ _ => intro v n h; cases h; omega
+  | not_fail _ _ => intro v n h; cases h
+
+/-- an operand that "consumes" (syntactically) consumes at least one byte whenever it succeeds -/
+theorem peg_consumes_pos {e : E} {x : Bytes} {r : Outcome} (h : Peg e x r) :
+    consumes e = true → ∀ v n, r = some (v, n) → 0 < n := by
+  induction h with
+  | chr_ok _ => intro _ v n h; cases h; omega
+  | chr_rej _ => intro _ v n h; cases h
+  | chr_eof => intro _ v n h; cases h
+  | seq_ok _ _ iha ihb =>
+    intro hc v n h; cases h
+    simp only [consumes, Bool.or_eq_true] at hc
+    cases hc with
+    | inl hc => have := iha hc _ _ rfl; omega
+    | inr hc => have := ihb hc _ _ rfl; omega
+  | seq_fail1 _ _ => intro _ v n h; cases h
+  | seq_fail2 _ _ _ _ => intro _ v n h; cases h
+  | alt_left _ iha =>
+    intro hc v n h; cases h
+    simp only [consumes, Bool.and_eq_true] at hc
+    exact iha hc.1 _ _ rfl
+  | alt_right _ _ _ ihb =>
+    intro hc v n h; cases h
+    simp only [consumes, Bool.and_eq_true] at hc
+    exact ihb hc.2 _ _ rfl
+  | alt_fail _ _ _ _ => intro _ v n h; cases h
+  | star_stop _ _ => intro hc; simp [consumes] at hc
+  | star_step _ _ _ _ => intro hc; simp [consumes] at hc
+  | not_ok _ _ => intro hc; simp [consumes] at hc
+  | not_fail _ _ => intro _ v n h; cases h
+
+theorem starEval_total {a : E} (hcons : consumes a = true)
+    (htot : ∀ x, ∃ r, pegEval a x = some r) :
+    ∀ (k : Nat) (x : Bytes), x.length < k → ∃ q, starEval (pegEval a) k x = some q := by
+  intro k
+  induction k with
+  | zero => intro x h; omega
+  | succ k ih =>
+    intro x hk
+    obtain ⟨r, hr⟩ := htot x
+    cases r with
+    | none => exact ⟨([], 0), by simp [starEval, hr]⟩
+    | some vn =>
+      obtain ⟨v, n⟩ := vn
+      have hp := pegEval_sound hr
+      have hpos := peg_consumes_pos hp hcons _ _ rfl
+      have hle := peg_consumed_le hp _ _ rfl
+      have hlen : (x.drop n).length < k := by simp only [List.length_drop]; omega
+      obtain ⟨q, hq⟩ := ih (x.drop n) hlen
+      obtain ⟨vs, m⟩ := q
+      have hn : n ≠ 0 := by omega
+      exact ⟨(v :: vs, n + m), by simp [starEval, hr, hn, hq]⟩
+
+/-- On the property's domain the oracle always answers … -/
+theorem pegEval_total {e : E} (hwf : StarBodiesConsume e = true) :
+    ∀ x, ∃ r, pegEval e x = some r := by
+  induction e with
+  | chr g w =>
+    intro x
+    cases x with
+    | nil => exact ⟨none, by simp [pegEval]⟩
+    | cons c x =>
+      by_cases hc : g.accepts c = true
+      · exact ⟨_, by simp only [pegEval, hc, if_true] <;> rfl⟩
+      · exact ⟨none, by simp [pegEval, hc]⟩
+  | seq a b iha ihb =>
+    intro x
+    simp only [StarBodiesConsume, Bool.and_eq_true] at hwf
+    obtain ⟨ra, ha⟩ := iha hwf.1 x
+    cases ra with
+    | none => exact ⟨none, by simp [pegEval, ha]⟩
+    | some vn =>
+      obtain ⟨va, n⟩ := vn
+      obtain ⟨rb, hb⟩ := ihb hwf.2 (x.drop n)
+      cases rb with
+      | none => exact ⟨none, by simp [pegEval, ha, hb]⟩
+      | some wm => obtain ⟨vb, m⟩ := wm; exact ⟨_, by simp only [pegEval, ha, hb] <;> rfl⟩
+  | alt a b iha ihb =>
+    intro x
+    simp only [StarBodiesConsume, Bool.and_eq_true] at hwf
+    obtain ⟨ra, ha⟩ := iha hwf.1 x
+    cases ra with
+    | some vn => obtain ⟨va, n⟩ := vn; exact ⟨_, by simp only [pegEval, ha] <;> rfl⟩
+    | none =>
+      obtain ⟨rb, hb⟩ := ihb hwf.2 x
+      cases rb with
+      | none => exact ⟨none, by simp [pegEval, ha, hb]⟩
+      | some wm => obtain ⟨vb, m⟩ := wm; exact ⟨_, by simp only [pegEval, ha, hb] <;> rfl⟩
+  | star a iha =>
+    intro x
+    simp only [StarBodiesConsume, Bool.and_eq_true] at hwf
+    obtain ⟨q, hq⟩ := starEval_total hwf.1 (iha hwf.2) (x.length + 1) x (by omega)
+    obtain ⟨vs, m⟩ := q
+    exact ⟨_, by simp only [pegEval, hq] <;> rfl⟩
+  | not a iha =>
+    intro x
+    simp only [StarBodiesConsume] at hwf
+    obtain ⟨ra, ha⟩ := iha hwf x
+    cases ra with
+    | none => exact ⟨_, by simp only [pegEval, ha] <;> rfl⟩
+    | some vn => exact ⟨none, by simp [pegEval, ha]⟩
+
+/-- … and its answer is exactly the relation: `pegEval` *is* the textbook semantics there. -/
+theorem pegEval_eq_peg {e : E} (hwf : StarBodiesConsume e = true) (x : Bytes) (r : Outcome) :
+    pegEval e x = some r ↔ Peg e x r := by
+  constructor
+  · exact pegEval_sound
+  · intro h
+    obtain ⟨r', hr'⟩ := pegEval_total hwf x
+    rw [hr', peg_deterministic (pegEval_sound hr') h]
+
+/-- Model and oracle agree (what the `model_vs_oracle` column of the evidence tests). -/
+theorem run_eq_pegEval {e : E} {s : Bytes} {i fuel : Nat}
+    (hwf : StarBodiesConsume e = true) (hi : i ≤ s.length) (hf : s.length - i < fuel) :
+    observe i (run e fuel s i) = pegEval e (s.drop i) := by
+  obtain ⟨r, hr⟩ := pegEval_total hwf (s.drop i)
+  rw [hr]
+  exact (run_eq_peg hwf hi hf r).mp (pegEval_sound hr)
+
+example : pegEval (.star (.not (.chr (.eq 97)))) [] = none := by rfl   -- outside the domain: no answer
+example : observe 0 (run (.star (.alt (.chr (.eq 97)) (.chr (.eq 98)))) 4 [98, 97, 99] 0)
+    = pegEval (.star (.alt (.chr (.eq 97)) (.chr (.eq 98)))) [98, 97, 99] := by rfl
+
+/-! ### Without the side condition: partial correctness for *every* expression
+
+The hypothesis `StarBodiesConsume` is needed for termination only.  For an arbitrary expression
+and arbitrary fuel the model either reports `hang` or returns exactly what the textbook semantics
+derives — and it never reaches a panic. -/
+
+/-- like `Good`, but a hang is allowed and nothing is said about consumption -/
+def Sound (e : E) (s : Bytes) (i : Nat) : Out × Nat → Prop
+  | (.ok t, j) => ∃ n, j = i + n ∧ j ≤ s.length ∧ t.start = i ∧ t.stop = j ∧ t.nest = true ∧
+      Peg e (s.drop i) (some (t.shape, n))
+  | (.err _, j) => (e.isRaw = false → j = i) ∧ Peg e (s.drop i) none
+  | (.panic _, _) => False
+  | (.hang, _) => True
+
+/-- what the loop of `Star::parse` returns when it returns -/
+def LoopSound (a : E) (s : Bytes) (start c : Nat) (v : List T) : Out × Nat → Prop
+  | (.ok t, j) => ∃ ts n, t = .list (v ++ ts) start (c + n) ∧ j = c + n ∧ c + n ≤ s.length ∧
+      tiles ts c (c + n) = true ∧ Peg (.star a) (s.drop c) (some (.list (shapes ts), n))
+  | (.err _, _) => False
+  | (.panic _, _) => False
+  | (.hang, _) => True
+
+theorem starLoop_sound {a : E} {p : Nat → Out × Nat} {s : Bytes} {start : Nat}
+    (hp : ∀ c, start ≤ c → c ≤ s.length → Sound a s c (p c)) :
+    ∀ (fuel c : Nat) (v : List T), start ≤ c → c ≤ s.length →
+      LoopSound a s start c v (starLoop p s start fuel c v (p c)) := by
+  intro fuel
+  induction fuel with
+  | zero =>
+    intro c v _ _
+    cases hpc : p c with
+    | mk r j => simp [starLoop, LoopSound]
+  | succ fuel ih =>
+    intro c v hsc hc
+    have hg := hp c hsc hc
+    cases hpc : p c with
+    | mk r j =>
+      rw [hpc] at hg
+      cases r with
+      | ok o =>
+        obtain ⟨n₁, hj, hjl, hst, hsp, hnest, hpeg⟩ := hg
+        have hrec := ih j (v ++ [o]) (by omega) hjl
+        simp only [starLoop]
+        cases hres : starLoop p s start fuel j (v ++ [o]) (p j) with
+        | mk r2 j2 =>
+          rw [hres] at hrec
+          cases r2 with
+          | ok t =>
+            obtain ⟨ts, n, ht, hj2, hle, htiles, hstar⟩ := hrec
+            refine ⟨o :: ts, n₁ + n, ?_, by omega, by omega, ?_, ?_⟩
+            · rw [ht]; simp only [List.append_assoc, List.singleton_append, hj, Nat.add_assoc]
+            · simp only [tiles, hnest, hst, hsp, Bool.and_eq_true, beq_iff_eq, true_and]
+              have : c + (n₁ + n) = j + n := by omega
+              rw [this]; exact htiles
+            · have hd : s.drop j = (s.drop c).drop n₁ := by rw [drop_add, hj]
+              rw [hd] at hstar
+              simp only [shapes]
+              exact .star_step hpeg hstar
+          | err k => exact hrec.elim
+          | panic st => exact hrec.elim
+          | hang => trivial
+      | err k =>
+        obtain ⟨_, hpeg⟩ := hg
+        simp only [starLoop, setCursor_ok hc]
+        refine ⟨[], 0, by simp, rfl, by omega, by simp [tiles], ?_⟩
+        simp only [shapes]; exact .star_stop hpeg
+      | panic st => exact hg.elim
+      | hang => simp [starLoop, LoopSound]
+
+theorem run_sound {e : E} {s : Bytes} {fuel : Nat} :
+    ∀ {i : Nat}, i ≤ s.length → Sound e s i (run e fuel s i) := by
+  induction e with
+  | chr g w =>
+    intro i hi
+    cases w with
+    | false =>
+      simp only [run]
+      cases hd : s.drop i with
+      | nil =>
+        rw [asciiChar_nil hi hd]
+        exact ⟨fun _ => rfl, by rw [hd]; exact .chr_eof⟩
+      | cons c x =>
+        rw [asciiChar_cons hd]
+        have hlt := lt_of_drop_cons hd
+        by_cases hc : g.accepts c = true
+        · simp only [hc, if_true]
+          refine ⟨1, rfl, by omega, rfl, rfl, by simp [T.nest], ?_⟩
+          rw [hd]; simp only [T.shape]; exact .chr_ok hc
+        · simp only [hc]
+          refine ⟨fun _ => rfl, ?_⟩
+          rw [hd]; exact .chr_rej (by simpa using hc)
+    | true =>
+      simp only [run]
+      cases hd : s.drop i with
+      | nil =>
+        rw [rawChar_nil hi hd]
+        exact ⟨fun _ => rfl, by rw [hd]; exact .chr_eof⟩
+      | cons c x =>
+        rw [rawChar_cons hd]
+        have hlt := lt_of_drop_cons hd
+        by_cases hc : g.accepts c = true
+        · simp only [hc, if_true]
+          refine ⟨1, rfl, by omega, rfl, rfl, by simp [T.nest], ?_⟩
+          rw [hd]; simp only [T.shape]; exact .chr_ok hc
+        · have hrej : Peg (.chr g true) (s.drop i) none := by
+            rw [hd]; exact .chr_rej (by simpa using hc)
+          simp only [hc]
+          by_cases h128 : c.toNat ≥ 128
+          · simp only [h128, if_true]; exact ⟨fun _ => rfl, hrej⟩
+          · simp only [h128]; exact ⟨fun h => by simp [E.isRaw] at h, hrej⟩
+  | seq a b iha ihb =>
+    intro i hi
+    have ha := iha hi
+    simp only [run]
+    cases hra : run a fuel s i with
+    | mk r j =>
+      rw [hra] at ha
+      cases r with
+      | ok o1 =>
+        obtain ⟨n, hj, hjl, hst, hsp, hnest, hpeg⟩ := ha
+        have hb := ihb (i := j) hjl
+        simp only []
+        cases hrb : run b fuel s j with
+        | mk r2 k =>
+          rw [hrb] at hb
+          cases r2 with
+          | ok o2 =>
+            obtain ⟨m, hk, hkl, hst2, hsp2, hnest2, hpeg2⟩ := hb
+            simp only []
+            refine ⟨n + m, by omega, hkl, rfl, rfl, ?_, ?_⟩
+            · simp [T.nest, hnest, hnest2, hst, hsp, hst2, hsp2]
+            · simp only [T.shape]
+              have hd : s.drop j = (s.drop i).drop n := by rw [drop_add, hj]
+              rw [hd] at hpeg2
+              exact .seq_ok hpeg hpeg2
+          | err k2 =>
+            obtain ⟨_, hpeg2⟩ := hb
+            simp only []
+            rw [restore_ok _ _ hi]
+            have hd : s.drop j = (s.drop i).drop n := by rw [drop_add, hj]
+            rw [hd] at hpeg2
+            exact ⟨fun _ => rfl, .seq_fail2 hpeg hpeg2⟩
+          | panic st => exact hb.elim
+          | hang => trivial
+      | err k =>
+        obtain ⟨_, hpeg⟩ := ha
+        simp only []
+        rw [restore_ok _ _ hi]
+        exact ⟨fun _ => rfl, .seq_fail1 hpeg⟩
+      | panic st => exact ha.elim
+      | hang => trivial
+  | alt a b iha ihb =>
+    intro i hi
+    have ha := iha hi
+    simp only [run]
+    cases hra : run a fuel s i with
+    | mk r j =>
+      rw [hra] at ha
+      cases r with
+      | ok o1 =>
+        obtain ⟨n, hj, hjl, hst, hsp, hnest, hpeg⟩ := ha
+        simp only []
+        refine ⟨n, hj, hjl, rfl, rfl, ?_, ?_⟩
+        · simp [T.nest, hnest, hst, hsp]
+        · simp only [T.shape]; exact .alt_left hpeg
+      | err k =>
+        obtain ⟨_, hpeg⟩ := ha
+        simp only [setCursor_ok hi]
+        have hb := ihb (i := i) hi
+        cases hrb : run b fuel s i with
+        | mk r2 k' =>
+          rw [hrb] at hb
+          cases r2 with
+          | ok o2 =>
+            obtain ⟨m, hk, hkl, hst2, hsp2, hnest2, hpeg2⟩ := hb
+            simp only []
+            refine ⟨m, hk, hkl, rfl, rfl, ?_, ?_⟩
+            · simp [T.nest, hnest2, hst2, hsp2]
+            · simp only [T.shape]; exact .alt_right hpeg hpeg2
+          | err k2 =>
+            obtain ⟨_, hpeg2⟩ := hb
+            simp only []
+            rw [restore_ok _ _ hi]
+            exact ⟨fun _ => rfl, .alt_fail hpeg hpeg2⟩
+          | panic st => exact hb.elim
+          | hang => trivial
+      | panic st => exact ha.elim
+      | hang => trivial
+  | star a iha =>
+    intro i hi
+    simp only [run]
+    have hp : ∀ c, i ≤ c → c ≤ s.length → Sound a s c ((fun j => run a fuel s j) c) := by
+      intro c _ hc
+      exact iha (i := c) hc
+    have hl := starLoop_sound hp fuel i [] (Nat.le_refl i) hi
+    cases hres : starLoop (fun j => run a fuel s j) s i fuel i [] (run a fuel s i) with
+    | mk r j =>
+      simp only [hres] at hl
+      cases r with
+      | ok t =>
+        obtain ⟨ts, n, ht, hj, hle, htiles, hstar⟩ := hl
+        simp only [List.nil_append] at ht
+        subst ht; subst hj
+        refine ⟨n, rfl, hle, rfl, rfl, ?_, ?_⟩
+        · simp only [T.nest]; exact htiles
+        · simp only [T.shape]; exact hstar
+      | err k => exact hl.elim
+      | panic st => exact hl.elim
+      | hang => trivial
+  | not a iha =>
+    intro i hi
+    have ha := iha hi
+    simp only [run]
+    cases hra : run a fuel s i with
+    | mk r j =>
+      rw [hra] at ha
+      cases r with
+      | ok o1 =>
+        obtain ⟨n, hj, hjl, hst, hsp, hnest, hpeg⟩ := ha
+        simp only [setCursor_ok hi]
+        exact ⟨fun _ => rfl, .not_fail hpeg⟩
+      | err k =>
+        obtain ⟨_, hpeg⟩ := ha
+        simp only [setCursor_ok hi]
+        refine ⟨0, rfl, hi, rfl, rfl, by simp [T.nest], ?_⟩
+        simp only [T.shape]; exact .not_ok hpeg
+      | panic st => exact ha.elim
+      | hang => trivial
+
+/-- **Partial correctness for every expression**, any fuel: if the composed parser returns at
+    all, its outcome is the textbook outcome (in particular the textbook semantics *has* one),
+    spans nest, the span is `[i, cursor)`, and a failing combinator leaves the cursor at `i`. -/
+theorem run_returns_peg_any {e : E} {s : Bytes} {i fuel : Nat} (hi : i ≤ s.length) :
+    (∀ t j, run e fuel s i = (.ok t, j) →
+        Peg e (s.drop i) (some (t.shape, j - i)) ∧ t.nest = true ∧ t.start = i ∧ t.stop = j ∧
+          i ≤ j ∧ j ≤ s.length) ∧
+    (∀ k j, run e fuel s i = (.err k, j) → Peg e (s.drop i) none ∧ (e.isRaw = false → j = i)) := by
+  have hs := run_sound (e := e) (fuel := fuel) hi
+  constructor
+  · intro t j h
+    rw [h] at hs
+    obtain ⟨n, hj, hjl, hst, hsp, hnest, hpeg⟩ := hs
+    have : j - i = n := by omega
+    rw [this]
+    exact ⟨hpeg, hnest, hst, hsp, by omega, hjl⟩
+  · intro k j h
+    rw [h] at hs
+    exact ⟨hs.2, hs.1⟩
+
+/-- **No expression at all can make the combinators panic** (every `set_cursor_unsafe` they
+    issue is within the buffer, `buf()` is never sliced past the end). -/
+theorem run_never_panics_any (e : E) (s : Bytes) (i fuel : Nat) (hi : i ≤ s.length)
+    (st : String) (j : Nat) : run e fuel s i ≠ (.panic st, j) := by
+  intro h
+  have hs := run_sound (e := e) (fuel := fuel) hi
+  rw [h] at hs
+  exact hs
+
+-- non-vacuity: an expression outside the domain that still terminates on this input
+example : StarBodiesConsume (.star (.star (.chr (.eq 97)))) = false
+    ∧ run (.seq (.chr (.eq 98)) (.star (.star (.chr (.eq 97))))) 5 [99] 0 = (.err .guard, 0) := ⟨rfl, rfl⟩
+-- the panic outcome is reachable in the model when the buffer invariant is violated (so
+-- `run_never_panics_any` is not vacuous)
+example : run (.chr (.eq 97)) 1 [97] 2 = (.panic "buf-slice", 2) := by rfl
 
 end Parsley.C18
